@@ -267,6 +267,8 @@ func Run(r *mc.Run) {
 		return true
 	})
 
+	addCutScenario(r)
+
 	// comparisons and sorts made at the same time: every schedule of small thread programs (instrumented build)
 	sched.Explore(r, "concurrent-comparisons", c01.ConcurrentPrograms())
 
@@ -395,6 +397,15 @@ func Replay(scenario string, raw json.RawMessage) []*mc.Violation {
 		var in SortIn
 		if mc.UnmarshalInput(raw, &in) == nil {
 			if v := checkSort(scenario, in); v != nil {
+				out = append(out, v)
+			}
+		}
+		return out
+	}
+	if scenario == "values-cut-from-one-buffer" {
+		var in CutIn
+		if mc.UnmarshalInput(raw, &in) == nil {
+			if v := checkCut(scenario, in); v != nil {
 				out = append(out, v)
 			}
 		}
